@@ -14,6 +14,14 @@ CHECKS = {
          "explicit-state exhaustive search (depth-bounded DFS with canonical-state dedup) over the real record keeper on branched stores, append-only reference list compared in every state",
          "Every sequence of <= depth create/multi-message/block operations by 2 creators over 2 contents is executed on the real message server; ids are checked unique along every path and every earlier record is re-read (contents, creator, tx hash) in every reached state; the Msg service descriptor is enumerated for other entry points.",
          "DESIGN.md §3 C19"),
+ "C05": ("model_checking",
+         "explicit-state exhaustive search over stake/unstake/harvest/adjust/destroy/block sequences on the real farm keeper (branched stores, canonical-state dedup), with a full-withdrawal epilogue in every order evaluated in every reached state",
+         "All operation sequences up to the depth bound by 2-3 farmers and the creator over three pool configurations (1-2 reward denominations, future start, top-ups/rate changes/destroy, 10^18+1 stakes). In every state: sum of stakes = pool total, escrow = staked + undistributed budgets, and every farmer withdraws everything in every order on a throw-away branch - each withdrawal must succeed and pay stake + accrued.",
+         "DESIGN.md §3 C05"),
+ "C06": ("model_checking",
+         "explicit-state exhaustive search as C05 with an exact big.Rat reference model of per-block release and stake-weighted entitlement carried along every path and compared in every reached state",
+         "Same histories as C05; reference model releases reward-per-block exactly while someone is staked and splits it pro rata in exact rationals. In every state: funded = remaining + released (after settling on a branch), released = paid + collector, refund to the creator exactly once (at end height or destroy) and equal to funded - released, each farmer's paid+accrued within (interactions+1) units (+1e-18 truncation term) of the exact share.",
+         "DESIGN.md §3 C06"),
 }
 NOT_YET = "check not built yet in this phase of the work (see DESIGN.md §6 change log); not claimed"
 
